@@ -52,6 +52,16 @@ def monitor(sc, res):
                 if k == "flatten" and dest and all(p == dest or p.startswith(dest + os.sep) for p in paths):
                     continue
                 fails.append({"what": f"{desc} performed a file-system mutation: {e}", "replay": sc})
+        elif k == "create" and io_["exc"] is not None and sc.get("profile") == "c14-fault":
+            # a run that dies of an input outside the stated domain (a name XML cannot carry): what it leaves of its OWN
+            # new files is not judged; what was there before must still be there, byte for byte
+            for p in ab:
+                if p not in aa:
+                    fails.append({"what": f"{desc} removed the existing file {p!r}", "replay": sc})
+                elif ab[p] != aa[p] and not p.endswith("ascmhl_chain.xml"):
+                    fails.append({"what": f"{desc} modified the existing file {p!r}", "replay": sc})
+            if mb != ma and any(mb.get(p, (None,))[:2] != ma.get(p, (None,))[:2] for p in set(mb) | set(ma)):
+                fails.append({"what": f"{desc} changed media content", "replay": sc})
         elif k == "create":
             at = op.get("at", "")
             # media: bytes, mode and mtime of every file unchanged; directories: only those that received a new ascmhl folder
@@ -94,6 +104,9 @@ def monitor(sc, res):
                     fails.append({"what": f"{desc} touched {p!r} outside its scope", "replay": sc})
                 if name == "ascmhl_chain.xml.tmp" and p in ab and p not in aa:
                     continue  # the chain writer's own temporary name: a stale one is consumed by the next write
+                if p in ab and p not in aa:
+                    fails.append({"what": f"{desc} removed the existing file {p!r}", "replay": sc})
+                    continue
                 if p in ab and name != "ascmhl_chain.xml":
                     fails.append({"what": f"{desc} modified existing file {p!r}", "replay": sc})
                 if p not in ab and not (name == "ascmhl_chain.xml" or re.match(r"^\d{4,}_.*\.mhl$", name)):
@@ -127,6 +140,14 @@ def run(ctx):
         if rnd.random() < 0.3:
             # read-only commands on a tree that has no history yet
             sc["ops"] = [{"op": "verify", "at": ""}, {"op": "verifydh", "at": ""}, {"op": "diff", "at": ""}, {"op": "info", "at": ""}, {"op": "flatten", "at": ""}] + sc["ops"]
+    # a create that fails half way (a name that XML cannot carry in the OUTER history, after the nested history has
+    # already been committed): whatever it does about its own new files, it removes nothing that was there before
+    for nflag in (False, True):
+        scs.insert(0, {"profile": "c14-fault", "root": "root", "tree": {"A/x.txt": "x", "A/B/y.txt": "y", "bad\x01name.txt": "b", "t.txt": "t"},
+                       "ops": [{"op": "create", "at": "A/B", "h": ["md5"], "now": "2026-03-01 12:00:01"}, {"op": "create", "at": "A", "h": ["md5"], "now": "2026-03-01 12:00:02"},
+                               {"op": "create", "at": "A", "h": ["sha1"], "now": "2026-03-01 12:00:03"},
+                               dict({"op": "create", "at": "", "h": ["md5"], "now": "2026-03-01 12:00:04", "impl_only": True}, **({"n": True} if nflag else {})),
+                               {"op": "verify", "at": "A", "impl_only": True}, {"op": "info", "at": "A", "impl_only": True}]})
     return _scn.run_scn(ctx, scs, monitor, assumptions=["reading adopted: the modification time of a directory that RECEIVES a new ascmhl folder changes by the documented effect", "Python-level audit events (open for writing, mkdir, rename, remove, rmdir, utime, chmod, truncate, shutil.*) plus a full snapshot (type, bytes, mode, mtime) before/after every command"])
 
 
